@@ -287,7 +287,9 @@ def run(ctx):
     ctx.rule = ('(a) the C06 histories (generated unit-consistent models, 1-4 conversions, unit-fix pass after each) scanned after '
                 'every conversion and compared with the model\'s units_invariant; (b) bundled documents with 2-4 random operations '
                 '(convert_variable, singularity removal, API edit, unit-fix pass), scanned after each; non-trivial = at least one '
-                'operation changed the equations')
+                'operation changed the equations; (c) 2-3 models built through the API per process with singular terms (four forms, '
+                'reciprocals, named constants, same-point sums, products with different points, excluded parameters), repaired one '
+                'after another and all scanned after each repair; any bare sympy Float in an equation is a violation')
     ctx.trusted += ['isinstance(units, store.Unit) and registry identity are the implementation-side reading of "unit object of that model\'s store"']
     cases = [c06.gen_case(ctx.seed * 100000 + i) for i in range(n)]
     results = vlib.pmap(run_generated, cases)
